@@ -272,7 +272,9 @@ def check_C19(tier, seed):
     quick = tier == "quick"
     info = build()
     paths = [p for p in sorted(PATHS) if info.get("v6", True) or p == "v4>v4:v4" or p.startswith("v4any")]
-    mc = V.mc("Udp.tla", "MC_Udp.cfg" if quick else "MC_Udp4.cfg", "C19", workers=8)
+    # the design model is checked while the implementation runs are generated, executed and validated
+    mc_pool = ThreadPoolExecutor(max_workers=1)
+    mc_fut = mc_pool.submit(V.mc, "Udp.tla", "MC_Udp.cfg" if quick else "MC_Udp4.cfg", "C19", 8)
     shapes, gst1 = V.gen("UdpGen.tla", "UdpGen_shapes.cfg" if quick else "UdpGen_shapes64.cfg", "C19s")
     lens, gst2 = V.gen("UdpGen.tla", "UdpGen_lensq.cfg" if quick else "UdpGen_lens.cfg", "C19l")
     shapes = [d for d in shapes if d["path"] in paths]
@@ -281,7 +283,11 @@ def check_C19(tier, seed):
     cases = pack(r, shapes, info, group) + pack(r, lens, info, 2 * group)
     n_rand = 1500 if quick else 40000
     cases += [random_case(r, info, paths) for _ in range(n_rand)]
-    res = run_and_validate(cases, "C19", shards=V.NPROC if quick else 6 * V.NPROC)
+    try:
+        res = run_and_validate(cases, "C19", shards=V.NPROC if quick else 6 * V.NPROC)
+    finally:
+        mc = mc_fut.result()
+        mc_pool.shutdown()
     ntx = sum(len(c["tx"]) for c in cases)
     distinct = len({desc_key(c, t) for c in cases for t in c["tx"]})
     cov = {
